@@ -149,9 +149,12 @@ class _:
     skolems = {'x': 'int', 'j': 'int'}
     ensures = {
         # O3a (C04): a message seq already received inside the window is dropped without reaching any handler
+        # (a duplicate FRAGMENT may still be shown to _recvAppFragment: that handler is idempotent by its own contract - first
+        # write wins in the slot, fragments of completed messages are ignored - so the application sees nothing twice; the first
+        # version of this clause demanded "no handler at all" and flagged a harmless change: corrected, DESIGN.md 0.5)
         'duplicate-in-window-reaches-no-handler': lambda old, events, msgseq: S.implies(
             recv(old.self.bitfield_msg.current_seqnum, old.self.bitfield_msg.bits, 256, S.ival(msgseq)),
-            len([e for e in events if e[0] == 'handler']) == 0),
+            len([e for e in events if e[0] == 'handler' and e[1] != '_recvAppFragment']) == 0),
         # O3b (C04): a message seq that has fallen out of the 256-message window cannot be told from a new one by this
         # protocol: it is delivered again.  Genuine, recorded as a known finding (repairing it at message level would lose
         # retransmissions whose first copy was lost: DESIGN.md section 4, F4)
